@@ -141,9 +141,10 @@ fn check_ladder(shape: u64, len: usize) -> Result<(), String> {
 }
 
 fn ladder(args: &Args, rep: &mut Report) {
-    let mut lens: Vec<usize> = (0..=70).collect();
-    let top = if args.extra.iter().any(|e| e == "norandom") { 9 } else { 18 };
-    for k in 7..=top {
+    // (the reduced workload run under the interpreter keeps a short ladder)
+    let reduced = args.extra.iter().any(|e| e == "norandom");
+    let mut lens: Vec<usize> = if reduced { vec![0, 1, 2, 3, 5, 8, 13, 21, 34, 55] } else { (0..=70).collect() };
+    for k in 7..=(if reduced { 8 } else { 18 }) {
         lens.extend([(1usize << k) - 1, 1 << k, (1 << k) + 1, 3 << (k - 1)]);
     }
     let mut idx = 0u64;
